@@ -15,6 +15,10 @@ pub enum Rule {
     Rot { order: usize },
     /// first half of a coupled pair (a, b)' = (b, a + b): a' = b   (the next column must be FibB)
     FibA,
+    /// the classic two-terms-per-step Fibonacci pair: a' = a + b (FibC) and b' = b + a' (FibD, the next column):
+    /// the NEXT value of the first column enters both constraints, with opposite signs
+    FibC,
+    FibD,
     /// b' = a + b
     FibB,
 }
@@ -112,7 +116,7 @@ impl AirSpec {
                 Rule::Pow { d, .. } => ((*d as usize).max(1), vec![]),
                 Rule::Periodic { cycle, .. } => (1, vec![*cycle]),
                 Rule::Periodic2 { cycle_a, cycle_b } => (1, vec![*cycle_a, *cycle_b]),
-                Rule::Rot { .. } | Rule::FibA | Rule::FibB => (1, vec![]),
+                Rule::Rot { .. } | Rule::FibA | Rule::FibB | Rule::FibC | Rule::FibD => (1, vec![]),
             })
             .collect();
         for _ in 0..self.sum_cols() {
@@ -169,6 +173,8 @@ impl AirSpec {
                 Rule::Rot { order } => v.extend([3, *order as u64, 0]),
                 Rule::FibA => v.extend([4, 0, 0]),
                 Rule::FibB => v.extend([5, 0, 0]),
+                Rule::FibC => v.extend([7, 0, 0]),
+                Rule::FibD => v.extend([8, 0, 0]),
             }
         }
         v.push(self.asserts.len() as u64);
